@@ -379,7 +379,7 @@ def part_fuzz(ctx, runs, seed):
 PARTS = {"big": part_big, "cuts": part_cuts, "bigcuts": part_bigcuts, "arbitrary": part_arbitrary, "fixed": part_fixed, "fuzz": part_fuzz}
 REPLAY = {"big": replay_fixed, "cuts": check_stream, "bigcuts": check_stream, "arbitrary": check_arbitrary, "fixed": replay_fixed, "fuzz": check_arbitrary}
 KNOWN = {}
-FLOORS = {"cut inside a packet": ("", 0.3)}
+FLOORS = {"cut inside a packet": ("", 0.2)}
 
 
 def plan(tier, seed):
